@@ -82,9 +82,10 @@ def Table.new (numEntries : Nat) : Table :=
   let n := normSize numEntries
   { size := n, used := setUsedSize n, gen := 0, contempt := 0, slots := Array.replicate n (0, 0) }
 
-/-- `clear()` : note that `generation` is not reset (only `reSize` does that) -/
+/-- `clear()` (after the repair `fix: reset the hash generation in TranspositionTable::clear()`; the pinned commit
+    kept `generation`, see `Props.C14.clearOld`) -/
 def Table.clear (t : Table) : Table :=
-  { t with used := setUsedSize t.size, slots := Array.replicate t.size (0, 0) }
+  { t with used := setUsedSize t.size, gen := 0, slots := Array.replicate t.size (0, 0) }
 
 def Table.nextGeneration (t : Table) : Table := { t with gen := (t.gen + 1) % 16 }
 
